@@ -20,12 +20,11 @@ LEVEL_TEXT = ('Proof (partial): 40 Lean theorems, no sorry, about the executable
                             'read_write_whole_partial: read(write d) = canon d for whole objects, by induction over the object\'s section list through the '
               'keyword loop (title line, each section\'s round trip with a continuation that begins with a keyword line, PARAM\'s look-ahead '
               'handed back to the loop, ENDCY/ENDFI), for TOUGH2-flavour objects with the mesh in the file, no extra-precision companion and '
-              'sections among ROCKS PARAM MOMOP START NOVER ELEME CONNE GENER LINEQ SOLVR (side conditions of the section theorems stated on the '
+              'sections among ROCKS PARAM MOMOP START NOVER ELEME CONNE GENER LINEQ SOLVR RPCAP TIMES SELEC INCON INDOM (side conditions of the section theorems stated on the '
               'reader\'s object when the section is met); whole_sections_preserved: the object read has the written object\'s _sections in '
               'the same order and its end keyword; write_read_write_whole_partial: write(read(write d)) = write(canon d) for the same objects. '
               'NOT proved (modelled; covered by the byte-for-byte correspondence and the oracle only): the whole-object composition for the other '
-              'thirteen section kinds (SIMUL/AUTOUGH2 flavour, RPCAP, MULTI, TIMES, SELEC, DIFFU, MESHM, SHORT, FOFT, COFT, GOFT, '
-              'INCON, INDOM), for the MESH / extra-precision auxiliary files; the binary MESHA/MESHB pair; idempotence of field rounding on '
+              'eight section kinds (SIMUL/AUTOUGH2 flavour, MULTI, DIFFU, MESHM, SHORT, FOFT, COFT, GOFT), for the MESH / extra-precision auxiliary files; the binary MESHA/MESHB pair; idempotence of field rounding on '
               'reals (hence of canon on whole objects).')
 LEVEL_NOTE = ('Trusted: Lean kernel (+propext, Classical.choice, Quot.sound); the hand-written model (tied to /repo on every run: written '
               'files byte for byte, read-back objects attribute by attribute, incl. the six shipped files); C02 record theorems; '
